@@ -168,9 +168,19 @@ impl ast::Visit for Visitor<'_, '_> {
                 }
             },
 
-            ast::StmtKind::CallSub { .. } => unimplemented!("need to check arg types against signature"),
+            ast::StmtKind::CallSub { .. } => {
+                self.errors.set(self.ctx.emitter.emit(error!(
+                    message("this form of sub call is not supported"),
+                    primary(stmt, "unsupported statement"),
+                )));
+            },
 
-            ast::StmtKind::InterruptLabel { .. } => {},
+            // the interrupt number is an integer
+            ast::StmtKind::InterruptLabel(expr) => {
+                if let Err(e) = self.check_cond(expr) {
+                    self.errors.set(e);
+                }
+            },
             ast::StmtKind::AbsTimeLabel { .. } => {},
             ast::StmtKind::RelTimeLabel { .. } => {},
             ast::StmtKind::Label { .. } => {},
@@ -258,7 +268,13 @@ impl Visitor<'_, '_> {
         return_keyword: ast::TokenSpan,
         expr: &Option<Sp<ast::Expr>>,
     ) -> ImplResult {
-        let func_state = self.cur_func_stack.last_mut().expect("return outside of function?!");
+        let func_state = match self.cur_func_stack.last_mut() {
+            Some(func_state) => func_state,
+            None => return Err(self.ctx.emitter.emit(error!(
+                message("'return' outside of a function"),
+                primary(return_keyword, "not inside a function"),
+            ))),
+        };
         func_state.missing_return = false;
 
         let func_def_id = func_state.func_def_id;
